@@ -113,6 +113,22 @@ theorem offset_laws_fixed_order_instance : ∀ order ∈ [[0, 1], [1, 0]], ∀ k
     read (offset (applyCorner (cur2 order) true) (-(k : Int))) = (read (cur2 order)).drop (6 - k) := by
   decide +kernel
 
+/-! ## open finding F48: the position exported right after a backward walk
+
+One partition, chunks of 2 + 2 records, no filter. The position after 3 delivered events, `Offset −2` with
+`Limit 0` (position only): the cursor stands on event 1 (its `Get` returns it) but the exported position is
+(chunk 10, idx 2) — one record too far — and a client that follows it gets event 2: event 1 is skipped. -/
+set_option maxHeartbeats 2000000 in
+theorem cex_exported_position_skips_event :
+    let q : Qry := { text := 1 }
+    let j : Journal := [⟨10, [r 0, r 1], 0, maxU32⟩, ⟨20, [r 2, r 3], 0, maxU32⟩]
+    let s0 : Server := { store := [(0, j)] }
+    let (s1, p1) := query queryMaxLimit s0 [] { query := some q, limit := 3 }
+    let (s2, p2) := query queryMaxLimit s1 [] { query := some q, pos := p1.next.pos, offset := -2, limit := 0 }
+    let (_, p3) := query queryMaxLimit s2 [] { query := some q, pos := p2.next.pos, limit := 1 }
+    p1.events.map (·.lbl) = [0, 1, 2] ∧ p2.next.pos = .map [(0, ⟨10, 2⟩)] ∧ p3.events.map (·.lbl) = [2] := by
+  decide +kernel
+
 /-! ## open finding #23: tie order depends on the leaf order of the incarnation -/
 
 /-- Read one event under leaf order [0,1] and take the position vector; a cursor built from that vector
